@@ -1,8 +1,676 @@
-//! C14 — not built yet (stub).
+//! C14 — array filters neither invent nor lose elements beyond their contract.
+//!
+//! non-trivial rule: the input array has at least 2 elements (order/duplicates can matter).
+use crate::cfg::{parser, Config};
 use crate::ctx::Ctx;
+use crate::exec::{render, Out};
+use crate::rng::{hash_combine, hash_str, Rng};
+use crate::val::{arr, obj, s, RVal};
+use liquid::{Object, Template};
+use serde_json::json;
 
-pub fn run(_ctx: &mut Ctx) {}
+/// split the strict dump of an array into the dumps of its elements
+pub fn split_array_dump(d: &str) -> Option<Vec<String>> {
+    let inner = d.strip_prefix('[')?.strip_suffix(']')?;
+    let mut out = Vec::new();
+    let (mut depth, mut in_str, mut esc) = (0i32, false, false);
+    let mut cur = String::new();
+    for ch in inner.chars() {
+        if in_str {
+            cur.push(ch);
+            if esc {
+                esc = false;
+            } else if ch == '\\' {
+                esc = true;
+            } else if ch == '"' {
+                in_str = false;
+            }
+            continue;
+        }
+        match ch {
+            '"' => {
+                in_str = true;
+                cur.push(ch);
+            }
+            '[' | '{' => {
+                depth += 1;
+                cur.push(ch);
+            }
+            ']' | '}' => {
+                depth -= 1;
+                cur.push(ch);
+            }
+            ',' if depth == 0 => {
+                out.push(std::mem::take(&mut cur));
+            }
+            _ => cur.push(ch),
+        }
+    }
+    if !cur.is_empty() || !inner.is_empty() {
+        out.push(cur);
+    }
+    Some(out)
+}
 
-pub fn replay(_j: &serde_json::Value) -> bool {
-    false
+fn num(v: &RVal) -> Option<f64> {
+    match v {
+        RVal::Int(i) => Some(*i as f64),
+        RVal::Float(f) => Some(*f),
+        _ => None,
+    }
+}
+
+/// reference ordering on the unambiguous cells: numbers numerically, strings lexicographically
+fn ref_cmp(a: &RVal, b: &RVal) -> Option<std::cmp::Ordering> {
+    match (a, b) {
+        (RVal::Str(x), RVal::Str(y)) => Some(x.cmp(y)),
+        _ => match (num(a), num(b)) {
+            (Some(x), Some(y)) => x.partial_cmp(&y),
+            _ => None,
+        },
+    }
+}
+
+/// reference equality on the unambiguous cells (C06-L2); None = not claimed
+fn ref_eq(a: &RVal, b: &RVal) -> Option<bool> {
+    match (a, b) {
+        (RVal::Nil, RVal::Nil) => Some(true),
+        (RVal::Str(x), RVal::Str(y)) => Some(x == y),
+        (RVal::Nil, RVal::Str(_) | RVal::Int(_) | RVal::Float(_)) | (RVal::Str(_) | RVal::Int(_) | RVal::Float(_), RVal::Nil) => Some(false),
+        (RVal::Str(_), RVal::Int(_) | RVal::Float(_)) | (RVal::Int(_) | RVal::Float(_), RVal::Str(_)) => Some(false),
+        _ => match (num(a), num(b)) {
+            (Some(x), Some(y)) => Some(x == y),
+            _ => {
+                if a.dump() == b.dump() && !a.dump().contains("7ff8") {
+                    Some(true)
+                } else {
+                    None
+                }
+            }
+        },
+    }
+}
+
+fn mutually_comparable(xs: &[RVal]) -> bool {
+    let non_nil: Vec<&RVal> = xs.iter().filter(|v| !v.is_nil()).collect();
+    non_nil.iter().all(|a| non_nil.iter().all(|b| ref_cmp(a, b).is_some()))
+}
+
+/// stable sort, nils last
+fn ref_sort(xs: &[RVal]) -> Vec<RVal> {
+    let mut v: Vec<RVal> = xs.to_vec();
+    v.sort_by(|a, b| match (a.is_nil(), b.is_nil()) {
+        (true, true) => std::cmp::Ordering::Equal,
+        (true, false) => std::cmp::Ordering::Greater,
+        (false, true) => std::cmp::Ordering::Less,
+        _ => ref_cmp(a, b).unwrap_or(std::cmp::Ordering::Equal),
+    });
+    v
+}
+
+fn render_scalar(v: &RVal) -> String {
+    match v {
+        RVal::Nil => String::new(),
+        RVal::Int(i) => i.to_string(),
+        RVal::Float(f) => format!("{f}"),
+        RVal::Str(s) => s.clone(),
+        RVal::Bool(b) => b.to_string(),
+        _ => "?".into(),
+    }
+}
+
+struct T {
+    sort: Template,
+    sort2: Template,
+    sort_natural: Template,
+    reverse: Template,
+    uniq: Template,
+    compact: Template,
+    concat: Template,
+    first: Template,
+    last: Template,
+    size: Template,
+    slice: Template,
+    join: Template,
+    map: Template,
+    where1: Template,
+    where2: Template,
+    sortp: Template,
+    compactp: Template,
+    ident: Template,
+}
+
+fn templates() -> T {
+    let p = parser(Config::Stdlib);
+    let t = |s: &str| p.parse(s).expect("c14 template");
+    T {
+        sort: t("{{ x | sort | vdump }}"),
+        sort2: t("{{ x | sort | sort | vdump }}"),
+        sort_natural: t("{{ x | sort_natural | vdump }}"),
+        reverse: t("{{ x | reverse | vdump }}"),
+        uniq: t("{{ x | uniq | vdump }}"),
+        compact: t("{{ x | compact | vdump }}"),
+        concat: t("{{ x | concat: y | vdump }}"),
+        first: t("{{ x | first | vdump }}"),
+        last: t("{{ x | last | vdump }}"),
+        size: t("{{ x | size | vdump }}"),
+        slice: t("{{ x | slice: o, l | vdump }}"),
+        join: t("{{ x | join: ',' | vdump }}"),
+        map: t("{{ x | map: p | vdump }}"),
+        where1: t("{{ x | where: p | vdump }}"),
+        where2: t("{{ x | where: p, t | vdump }}"),
+        sortp: t("{{ x | sort: p | vdump }}"),
+        compactp: t("{{ x | compact: p | vdump }}"),
+        ident: t("{{ x | vdump }}"),
+    }
+}
+
+struct Run<'a> {
+    ctx: &'a mut Ctx,
+    t: &'a T,
+}
+
+impl Run<'_> {
+    fn eval(&mut self, name: &str, t: &Template, o: &Object, replay: &dyn Fn() -> serde_json::Value) -> Option<String> {
+        self.ctx.count(&format!("filter:{name}"));
+        match render(t, o) {
+            Out::Ok(s) => Some(s),
+            Out::Err(e) => {
+                self.ctx.count(&format!("filter:{name}:error"));
+                let _ = e;
+                None
+            }
+            Out::Panic(p) => {
+                let r = replay();
+                self.ctx.violation(&format!("{name}:{}", p.key()), &format!("{name} panicked at {}: {}", p.site(), p.msg), move || r);
+                None
+            }
+            Out::BadUtf8(_) => None,
+        }
+    }
+    fn fail(&mut self, key: &str, what: String, replay: &dyn Fn() -> serde_json::Value) {
+        let r = replay();
+        self.ctx.violation(key, &what, move || r);
+    }
+}
+
+fn multiset(xs: &[String]) -> Vec<String> {
+    let mut v = xs.to_vec();
+    v.sort();
+    v
+}
+
+fn check_scalar_array(r: &mut Run<'_>, xs: &[RVal], family: &str) {
+    let x = arr(xs.to_vec());
+    let mut o = Object::new();
+    o.insert("x".into(), x.to_liquid());
+    let xd = x.dump();
+    let in_elems: Vec<String> = xs.iter().map(|v| v.dump()).collect();
+    let replay_x = x.clone();
+    let fam = family.to_string();
+    let replay = move || json!({"kind": "array-filter", "x": replay_x.to_json(), "family": fam});
+    let h = hash_str(&xd);
+    let t = r.t;
+    // sanity: the dump plugin shows the input unchanged
+    if let Some(d) = r.eval("identity", &t.ident, &o, &replay) {
+        if d != xd {
+            r.ctx.inconclusive.push(format!("harness: dump of input {xd} reads {d}"));
+            return;
+        }
+    }
+    let comparable = mutually_comparable(xs);
+    // sort
+    match r.eval("sort", &t.sort, &o, &replay) {
+        Some(d) => match split_array_dump(&d) {
+            Some(el) => {
+                if multiset(&el) != multiset(&in_elems) {
+                    r.fail("sort:not-a-permutation", format!("{xd} | sort = {d}"), &replay);
+                } else if comparable {
+                    let want = arr(ref_sort(xs)).dump();
+                    if d != want {
+                        r.fail("sort:differs-from-stable-sort-nil-last", format!("{xd} | sort = {d}, stable sort with nils last = {want}"), &replay);
+                    }
+                    r.ctx.count("sort:compared-with-reference");
+                    if let Some(d2) = r.eval("sort", &t.sort2, &o, &replay) {
+                        if d2 != d {
+                            r.fail("sort:not-idempotent", format!("{xd} | sort = {d} but | sort | sort = {d2}"), &replay);
+                        }
+                    }
+                } else {
+                    r.ctx.count("sort:mixed-permutation-only");
+                }
+            }
+            None => r.fail("sort:not-an-array", format!("{xd} | sort = {d}"), &replay),
+        },
+        None => {
+            // "none of them fails ... because of the array's length or initial order"
+            r.fail("sort:fails-on-array", format!("{xd} | sort returned an error"), &replay);
+        }
+    }
+    // sort_natural, reverse: permutations
+    for (name, tpl) in [("sort_natural", &t.sort_natural), ("reverse", &t.reverse)] {
+        match r.eval(name, tpl, &o, &replay) {
+            Some(d) => match split_array_dump(&d) {
+                Some(el) => {
+                    if multiset(&el) != multiset(&in_elems) {
+                        r.fail(&format!("{name}:not-a-permutation"), format!("{xd} | {name} = {d}"), &replay);
+                    }
+                    if name == "reverse" {
+                        let want: Vec<String> = in_elems.iter().rev().cloned().collect();
+                        if el != want {
+                            r.fail("reverse:wrong-order", format!("{xd} | reverse = {d}"), &replay);
+                        }
+                    }
+                }
+                None => r.fail(&format!("{name}:not-an-array"), format!("{xd} | {name} = {d}"), &replay),
+            },
+            None => r.fail(&format!("{name}:fails-on-array"), format!("{xd} | {name} returned an error"), &replay),
+        }
+    }
+    // uniq: drops exactly the elements equal to an earlier kept one (on the claimed cells)
+    if let Some(d) = r.eval("uniq", &t.uniq, &o, &replay) {
+        let mut kept: Vec<RVal> = Vec::new();
+        let mut claimed = true;
+        for v in xs {
+            let mut dup = false;
+            for k in &kept {
+                match ref_eq(k, v) {
+                    Some(true) => {
+                        dup = true;
+                        break;
+                    }
+                    Some(false) => {}
+                    None => claimed = false,
+                }
+            }
+            if !dup {
+                kept.push(v.clone());
+            }
+        }
+        if claimed {
+            let want = arr(kept).dump();
+            if d != want {
+                r.fail("uniq:differs-from-reference", format!("{xd} | uniq = {d}, reference = {want}"), &replay);
+            }
+            r.ctx.count("uniq:compared-with-reference");
+        }
+    } else {
+        r.fail("uniq:fails-on-array", format!("{xd} | uniq returned an error"), &replay);
+    }
+    // compact: removes exactly the nils
+    if let Some(d) = r.eval("compact", &t.compact, &o, &replay) {
+        let want = arr(xs.iter().filter(|v| !v.is_nil()).cloned().collect()).dump();
+        if d != want {
+            r.fail("compact:differs-from-reference", format!("{xd} | compact = {d}, reference = {want}"), &replay);
+        }
+    } else {
+        r.fail("compact:fails-on-array", format!("{xd} | compact returned an error"), &replay);
+    }
+    // first / last / size / join agree with indexing
+    if let Some(d) = r.eval("size", &t.size, &o, &replay) {
+        if d != format!("i:{}", xs.len()) {
+            r.fail("size:wrong", format!("{xd} | size = {d}"), &replay);
+        }
+    }
+    if !xs.is_empty() {
+        if let Some(d) = r.eval("first", &t.first, &o, &replay) {
+            if d != xs[0].dump() {
+                r.fail("first:wrong", format!("{xd} | first = {d}"), &replay);
+            }
+        }
+        if let Some(d) = r.eval("last", &t.last, &o, &replay) {
+            if d != xs[xs.len() - 1].dump() {
+                r.fail("last:wrong", format!("{xd} | last = {d}"), &replay);
+            }
+        }
+    } else {
+        // [] | first: nil or an error are both defensible
+        r.eval("first", &t.first, &o, &replay);
+        r.eval("last", &t.last, &o, &replay);
+    }
+    if xs.iter().all(|v| matches!(v, RVal::Nil | RVal::Int(_) | RVal::Float(_) | RVal::Str(_))) {
+        if let Some(d) = r.eval("join", &t.join, &o, &replay) {
+            let want = RVal::Str(xs.iter().map(render_scalar).collect::<Vec<_>>().join(",")).dump();
+            if d != want {
+                r.fail("join:wrong", format!("{xd} | join: ',' = {d}, reference = {want}"), &replay);
+            }
+        }
+    }
+    r.ctx.record(h, xs.len() >= 2);
+    r.ctx.count(&format!("family:{family}"));
+    let n = xs.len();
+    r.ctx.sample(|| json!({"family": family, "x": xd, "len": n}));
+}
+
+fn check_slice_concat(r: &mut Run<'_>, xs: &[RVal], ys: &[RVal]) {
+    let x = arr(xs.to_vec());
+    let y = arr(ys.to_vec());
+    let xd = x.dump();
+    let t = r.t;
+    let n = xs.len() as i64;
+    let (rx, ry) = (x.clone(), y.clone());
+    let replay = move || json!({"kind": "array-filter", "x": rx.to_json(), "y": ry.to_json(), "family": "slice-concat"});
+    let mut o = Object::new();
+    o.insert("x".into(), x.to_liquid());
+    o.insert("y".into(), y.to_liquid());
+    if let Some(d) = r.eval("concat", &t.concat, &o, &replay) {
+        let want = arr(xs.iter().chain(ys.iter()).cloned().collect()).dump();
+        if d != want {
+            r.fail("concat:wrong", format!("{xd} | concat: {} = {d}", y.dump()), &replay);
+        }
+    } else {
+        r.fail("concat:fails-on-array", format!("{xd} | concat: {} returned an error", y.dump()), &replay);
+    }
+    for off in -(n + 2)..=(n + 1) {
+        for len in [-1i64, 0, 1, 2, n, n + 1] {
+            o.insert("o".into(), liquid::model::Value::scalar(off));
+            o.insert("l".into(), liquid::model::Value::scalar(len));
+            let rp = {
+                let x = x.clone();
+                move || json!({"kind": "array-filter", "x": x.to_json(), "o": off, "l": len, "family": "slice"})
+            };
+            if let Some(d) = r.eval("slice", &t.slice, &o, &rp) {
+                let el = match split_array_dump(&d) {
+                    Some(e) => e,
+                    None => {
+                        r.fail("slice:not-an-array", format!("{xd} | slice: {off}, {len} = {d}"), &rp);
+                        continue;
+                    }
+                };
+                let in_elems: Vec<String> = xs.iter().map(|v| v.dump()).collect();
+                // law: contiguous piece of at most the requested length
+                let contiguous = el.is_empty() || in_elems.windows(el.len()).any(|w| w == el.as_slice());
+                if !contiguous || (el.len() as i64) > len.max(0) {
+                    r.fail("slice:not-a-contiguous-piece-of-requested-length", format!("{xd} | slice: {off}, {len} = {d}"), &rp);
+                }
+                // exact on in-range offsets
+                let start = if off >= 0 { off } else { n + off };
+                if (0..n).contains(&start) && (off >= 0 || off >= -n) {
+                    let end = (start + len.max(0)).min(n);
+                    let want: Vec<String> = in_elems[start as usize..end.max(start) as usize].to_vec();
+                    if el != want {
+                        r.fail("slice:wrong-elements", format!("{xd} | slice: {off}, {len} = {d}, indexing gives [{}]", want.join(",")), &rp);
+                    }
+                    r.ctx.count("slice:compared-with-indexing");
+                }
+            }
+            r.ctx.record(hash_combine(hash_str(&xd), (off * 100 + len + 5000) as u64), xs.len() >= 2);
+        }
+    }
+}
+
+fn objects_pool() -> Vec<RVal> {
+    vec![
+        obj(vec![("p", RVal::Int(1))]),
+        obj(vec![("p", RVal::Int(2))]),
+        obj(vec![("p", RVal::Float(1.0)), ("q", s("x"))]),
+        obj(vec![("p", s("a")), ("q", RVal::Int(1))]),
+        obj(vec![("p", RVal::Nil)]),
+        obj(vec![("p", RVal::Bool(false))]),
+        obj(vec![("q", RVal::Int(1))]),
+        obj(vec![]),
+    ]
+}
+
+fn prop_of<'a>(o: &'a RVal, p: &str) -> Option<&'a RVal> {
+    match o {
+        RVal::Object(kv) => kv.iter().find(|(k, _)| k == p).map(|(_, v)| v),
+        _ => None,
+    }
+}
+
+fn check_object_array(r: &mut Run<'_>, xs: &[RVal]) {
+    let x = arr(xs.to_vec());
+    let xd = x.dump();
+    let t = r.t;
+    for p in ["p", "q", "zz"] {
+        let mut o = Object::new();
+        o.insert("x".into(), x.to_liquid());
+        o.insert("p".into(), liquid::model::Value::scalar(p));
+        let rp = {
+            let x = x.clone();
+            move || json!({"kind": "array-filter", "x": x.to_json(), "p": p, "family": "objects"})
+        };
+        // map: in order, exactly the properties of the objects that have the property.
+        // An object whose property is present but nil may count either way (statement silent).
+        if let Some(d) = r.eval("map", &t.map, &o, &rp) {
+            let strict: Vec<String> = xs.iter().filter_map(|v| prop_of(v, p)).map(|v| v.dump()).collect();
+            let lax: Vec<String> = xs.iter().filter_map(|v| prop_of(v, p)).filter(|v| !v.is_nil()).map(|v| v.dump()).collect();
+            let el = split_array_dump(&d).unwrap_or_default();
+            if el != strict && el != lax {
+                r.fail("map:wrong", format!("{xd} | map: '{p}' = {d}, reference = [{}]", strict.join(",")), &rp);
+            }
+        } else {
+            r.fail("map:fails-on-array", format!("{xd} | map: '{p}' returned an error"), &rp);
+        }
+        // where without target: objects whose property is truthy (present, not nil, not false)
+        if let Some(d) = r.eval("where", &t.where1, &o, &rp) {
+            let want: Vec<String> = xs
+                .iter()
+                .filter(|v| matches!(prop_of(v, p), Some(pv) if !pv.is_nil() && !matches!(pv, RVal::Bool(false))))
+                .map(|v| v.dump())
+                .collect();
+            let el = split_array_dump(&d).unwrap_or_default();
+            if el != want {
+                r.fail("where:wrong", format!("{xd} | where: '{p}' = {d}, reference = [{}]", want.join(",")), &rp);
+            }
+        } else {
+            r.fail("where:fails-on-array", format!("{xd} | where: '{p}' returned an error"), &rp);
+        }
+        // where with target (only on cells where equality is claimed)
+        for target in [RVal::Int(1), s("a"), RVal::Int(2)] {
+            o.insert("t".into(), target.to_liquid());
+            let claimed = xs.iter().all(|v| prop_of(v, p).map(|pv| ref_eq(pv, &target).is_some()).unwrap_or(true));
+            if let Some(d) = r.eval("where-target", &t.where2, &o, &rp) {
+                if claimed {
+                    let want: Vec<String> = xs
+                        .iter()
+                        .filter(|v| prop_of(v, p).map(|pv| ref_eq(pv, &target) == Some(true)).unwrap_or(false))
+                        .map(|v| v.dump())
+                        .collect();
+                    let el = split_array_dump(&d).unwrap_or_default();
+                    if el != want {
+                        r.fail("where:wrong-with-target", format!("{xd} | where: '{p}', {} = {d}, reference = [{}]", target.dump(), want.join(",")), &rp);
+                    }
+                }
+            }
+        }
+        // sort by property: permutation; non-decreasing by property with nil/missing last when comparable
+        match r.eval("sort-by-property", &t.sortp, &o, &rp) {
+            Some(d) => {
+                let el = split_array_dump(&d).unwrap_or_default();
+                let in_elems: Vec<String> = xs.iter().map(|v| v.dump()).collect();
+                if multiset(&el) != multiset(&in_elems) {
+                    r.fail("sort:not-a-permutation", format!("{xd} | sort: '{p}' = {d}"), &rp);
+                } else {
+                    let props: Vec<RVal> = xs.iter().map(|v| prop_of(v, p).cloned().unwrap_or(RVal::Nil)).collect();
+                    if mutually_comparable(&props) {
+                        let mut idx: Vec<usize> = (0..xs.len()).collect();
+                        idx.sort_by(|&a, &b| match (props[a].is_nil(), props[b].is_nil()) {
+                            (true, true) => std::cmp::Ordering::Equal,
+                            (true, false) => std::cmp::Ordering::Greater,
+                            (false, true) => std::cmp::Ordering::Less,
+                            _ => ref_cmp(&props[a], &props[b]).unwrap_or(std::cmp::Ordering::Equal),
+                        });
+                        let want: Vec<String> = idx.iter().map(|&i| in_elems[i].clone()).collect();
+                        if el != want {
+                            r.fail("sort:by-property-differs-from-stable-sort", format!("{xd} | sort: '{p}' = {d}, reference = [{}]", want.join(",")), &rp);
+                        }
+                    }
+                }
+            }
+            None => r.fail("sort:fails-on-array", format!("{xd} | sort: '{p}' returned an error"), &rp),
+        }
+        // compact by property: removes exactly the objects whose property is nil or missing
+        if let Some(d) = r.eval("compact-by-property", &t.compactp, &o, &rp) {
+            let want: Vec<String> = xs.iter().filter(|v| matches!(prop_of(v, p), Some(pv) if !pv.is_nil())).map(|v| v.dump()).collect();
+            let el = split_array_dump(&d).unwrap_or_default();
+            if el != want {
+                r.fail("compact:by-property-wrong", format!("{xd} | compact: '{p}' = {d}, reference = [{}]", want.join(",")), &rp);
+            }
+        }
+    }
+    r.ctx.record(hash_str(&format!("obj{xd}")), xs.len() >= 2);
+    r.ctx.count("family:object-arrays");
+}
+
+fn enumerate<F: FnMut(&[RVal])>(pool: &[RVal], max_len: usize, mut f: F) {
+    for len in 0..=max_len {
+        let total = pool.len().pow(len as u32);
+        let mut idx = vec![0usize; len];
+        for _ in 0..total {
+            let xs: Vec<RVal> = idx.iter().map(|&i| pool[i].clone()).collect();
+            f(&xs);
+            for k in (0..len).rev() {
+                idx[k] += 1;
+                if idx[k] < pool.len() {
+                    break;
+                }
+                idx[k] = 0;
+            }
+        }
+    }
+}
+
+fn random_array(rng: &mut Rng, len: usize, kind: usize) -> Vec<RVal> {
+    let mut xs: Vec<RVal> = (0..len)
+        .map(|_| match kind {
+            0 => RVal::Int(rng.range(-5, 30)),
+            1 => {
+                if rng.chance(1, 3) {
+                    RVal::Float(rng.range(-10, 60) as f64 / 2.0)
+                } else {
+                    RVal::Int(rng.range(-5, 30))
+                }
+            }
+            2 => s(rng.choose(&["a", "B", "b", "A", "ab", "", "é", "z", "Z", "10", "9"])),
+            3 => {
+                if rng.chance(1, 5) {
+                    RVal::Nil
+                } else {
+                    RVal::Int(rng.range(0, 9))
+                }
+            }
+            _ => match rng.below(7) {
+                0 => RVal::Nil,
+                1 => s(rng.choose(&["a", "B", "10", "x"])),
+                2 => RVal::Float(rng.range(0, 9) as f64 + 0.5),
+                3 => RVal::Bool(rng.chance(1, 2)),
+                4 => arr(vec![RVal::Int(rng.range(0, 3))]),
+                5 => obj(vec![("k", RVal::Int(rng.range(0, 3)))]),
+                _ => RVal::Int(rng.range(0, 9)),
+            },
+        })
+        .collect();
+    // initial orders: random, sorted, reversed, organ-pipe (sorted by a total order: the
+    // reference order where it is defined, the dump text otherwise)
+    let total_sorted = |xs: &[RVal]| -> Vec<RVal> {
+        if mutually_comparable(xs) {
+            ref_sort(xs)
+        } else {
+            let mut v = xs.to_vec();
+            v.sort_by_key(|x| x.dump());
+            v
+        }
+    };
+    match rng.below(4) {
+        0 => {}
+        1 => xs = total_sorted(&xs),
+        2 => {
+            xs = total_sorted(&xs);
+            xs.reverse();
+        }
+        _ => {
+            let sorted = total_sorted(&xs);
+            let mut a = Vec::new();
+            let mut b = Vec::new();
+            for (i, v) in sorted.into_iter().enumerate() {
+                if i % 2 == 0 {
+                    a.push(v)
+                } else {
+                    b.push(v)
+                }
+            }
+            b.reverse();
+            a.extend(b);
+            xs = a;
+        }
+    }
+    xs
+}
+
+pub fn run(ctx: &mut Ctx) {
+    ctx.start_watchdog(120);
+    let t = templates();
+    let scalars = vec![RVal::Nil, RVal::Int(1), RVal::Float(1.0), RVal::Int(2), RVal::Float(1.5), s("a"), s("B"), s("b")];
+    let cases = vec![s("a"), s("A"), s("b"), s("B"), s("ab"), s("Ab")];
+    let max_len = ctx.scale(4usize, 5usize);
+    let mut r = Run { ctx, t: &t };
+    enumerate(&scalars, max_len, |xs| {
+        if r.ctx.mine(hash_str(&arr(xs.to_vec()).dump())) {
+            check_scalar_array(&mut r, xs, "scalars-exhaustive");
+        }
+    });
+    enumerate(&cases, max_len, |xs| {
+        if r.ctx.mine(hash_str(&arr(xs.to_vec()).dump())) {
+            check_scalar_array(&mut r, xs, "case-variants-exhaustive");
+        }
+    });
+    let objs = objects_pool();
+    let omax = r.ctx.scale(3usize, 4usize);
+    enumerate(&objs, omax, |xs| {
+        if r.ctx.mine(hash_str(&arr(xs.to_vec()).dump())) {
+            check_object_array(&mut r, xs);
+        }
+    });
+    // slice / concat on small arrays
+    let small = vec![RVal::Nil, RVal::Int(1), s("a")];
+    enumerate(&small, 4, |xs| {
+        if r.ctx.mine(hash_str(&format!("sl{}", arr(xs.to_vec()).dump()))) {
+            let ys: Vec<RVal> = xs.iter().rev().take(2).cloned().collect();
+            check_slice_concat(&mut r, xs, &ys);
+        }
+    });
+    // random longer arrays, every initial order, homogeneous and mixed
+    let n = r.ctx.scale(60_000u64, 1_000_000u64);
+    let rng = r.ctx.rng("c14-random");
+    for i in 0..n {
+        if !r.ctx.mine_idx(i) {
+            continue;
+        }
+        let mut g = rng.fork(i);
+        let len = if g.chance(1, 2) { 21 + g.below(40) } else { g.below(22) };
+        let kind = g.below(5);
+        let xs = random_array(&mut g, len, kind);
+        check_scalar_array(&mut r, &xs, &format!("random-kind{kind}"));
+        if len > 20 {
+            r.ctx.count("random:longer-than-20");
+        }
+    }
+}
+
+pub fn replay(j: &serde_json::Value) -> bool {
+    let t = templates();
+    let mut ctx = Ctx::new("C14", crate::ctx::Tier::Quick, 1, 0, 1, None);
+    let x = RVal::from_json(&j["x"]);
+    let xs = match &x {
+        RVal::Array(v) => v.clone(),
+        _ => vec![],
+    };
+    {
+        let mut r = Run { ctx: &mut ctx, t: &t };
+        match j["family"].as_str().unwrap_or("") {
+            "objects" => check_object_array(&mut r, &xs),
+            "slice" | "slice-concat" => {
+                let ys: Vec<RVal> = xs.iter().rev().take(2).cloned().collect();
+                check_slice_concat(&mut r, &xs, &ys)
+            }
+            f => check_scalar_array(&mut r, &xs, f),
+        }
+    }
+    println!("x = {}", x.dump());
+    for v in &ctx.violations {
+        println!("VIOLATED {}: {}", v.key, v.what);
+    }
+    !ctx.violations.is_empty()
 }
